@@ -59,6 +59,7 @@ def main():
     ap.add_argument("--no-tests", action="store_true"); ap.add_argument("--twice", action="store_true"); ap.add_argument("--keep", action="store_true")
     a = ap.parse_args()
     wt = f"/tmp/ezc3d-mut.{os.getpid()}"
+    builds_before = set(glob.glob(os.path.join(VERIF, "build", "*-*")))
     sh(["git", "-C", REPO, "worktree", "prune"])
     r = sh(["git", "-C", REPO, "worktree", "add", "--detach", "-q", wt, "HEAD"], capture_output=True, text=True)
     if r.returncode != 0:
@@ -94,7 +95,7 @@ def main():
             shutil.rmtree(wt, ignore_errors=True)
             # drop harness builds made for the mutant tree
             for d in glob.glob(os.path.join(VERIF, "build", "*-*")):
-                if os.path.isdir(d) and not d.endswith("mutant-cache") and time.time() - os.path.getmtime(d) < 3600 and os.path.exists(os.path.join(d, ".mutant")):
+                if d not in builds_before and os.path.isdir(d) and not d.endswith("mutant-cache") and os.path.exists(os.path.join(d, ".mutant")):
                     shutil.rmtree(d, ignore_errors=True)
     return rc
 
